@@ -33,6 +33,8 @@ type Engine struct {
 	Excluded  []string
 	canonMemo map[ssa.Value]string
 	fnInfos   map[*ssa.Function]*fnInfo
+	sharing    map[string]bool
+	sharedRuns map[string]*Report
 }
 
 // Load type-checks every package of the module in repoDir and builds SSA.
